@@ -26,6 +26,8 @@ impl DenseLuaGenerator {
     /// Appends a string to the current content of the DenseLuaGenerator. A space may be added
     /// depending of the last character of the current content and the first character pushed.
     fn push_str(&mut self, content: &str) {
+        #[cfg(darklua_verif)]
+        crate::verif_hooks::trace("push_str", content, 0);
         if let Some(next_char) = content.chars().next() {
             self.push_space_if_needed(next_char, content.len());
             self.raw_push_str(content);
@@ -34,6 +36,8 @@ impl DenseLuaGenerator {
 
     /// Same as the `push_str` function, but for a single character.
     fn push_char(&mut self, character: char) {
+        #[cfg(darklua_verif)]
+        crate::verif_hooks::trace("push_char", character.encode_utf8(&mut [0; 4]), 0);
         self.push_space_if_needed(character, 1);
 
         self.output.push(character);
@@ -44,6 +48,8 @@ impl DenseLuaGenerator {
     /// This function pushes a character into the string, without appending a new line
     /// or a space between the last pushed content.
     fn merge_char(&mut self, character: char) {
+        #[cfg(darklua_verif)]
+        crate::verif_hooks::trace("merge_char", character.encode_utf8(&mut [0; 4]), 0);
         if self.fits_on_current_line(1) {
             self.raw_push_char(character);
         } else {
@@ -71,6 +77,8 @@ impl DenseLuaGenerator {
     }
 
     fn push_new_line_if_needed(&mut self, pushed_length: usize) {
+        #[cfg(darklua_verif)]
+        crate::verif_hooks::trace("push_new_line_if_needed", "", pushed_length as i64);
         if self.current_line_length >= self.column_span {
             self.push_new_line();
         } else {
@@ -83,6 +91,12 @@ impl DenseLuaGenerator {
     }
 
     fn push_space_if_needed(&mut self, next_character: char, pushed_length: usize) {
+        #[cfg(darklua_verif)]
+        crate::verif_hooks::trace(
+            "push_space_if_needed",
+            next_character.encode_utf8(&mut [0; 4]),
+            pushed_length as i64,
+        );
         if self.current_line_length >= self.column_span {
             self.push_new_line();
         } else {
@@ -103,12 +117,16 @@ impl DenseLuaGenerator {
 
     #[inline]
     fn push_new_line(&mut self) {
+        #[cfg(darklua_verif)]
+        crate::verif_hooks::trace("push_new_line", "", 0);
         self.output.push('\n');
         self.current_line_length = 0;
     }
 
     #[inline]
     fn push_space(&mut self) {
+        #[cfg(darklua_verif)]
+        crate::verif_hooks::trace("push_space", "", 0);
         self.output.push(' ');
         self.current_line_length += 1;
     }
@@ -134,6 +152,8 @@ impl DenseLuaGenerator {
 
     #[inline]
     fn raw_push_str(&mut self, content: &str) {
+        #[cfg(darklua_verif)]
+        crate::verif_hooks::trace("raw_push_str", content, 0);
         self.output.push_str(content);
         self.last_push_length = content.len();
         self.current_line_length += self.last_push_length;
@@ -141,6 +161,8 @@ impl DenseLuaGenerator {
 
     #[inline]
     fn raw_push_char(&mut self, character: char) {
+        #[cfg(darklua_verif)]
+        crate::verif_hooks::trace("raw_push_char", character.encode_utf8(&mut [0; 4]), 0);
         self.output.push(character);
         self.last_push_length = 1;
         self.current_line_length += 1;
@@ -152,6 +174,12 @@ impl DenseLuaGenerator {
     where
         F: Fn(&str) -> bool,
     {
+        #[cfg(darklua_verif)]
+        crate::verif_hooks::trace(
+            "push_str_and_break_if",
+            content,
+            predicate(self.get_last_push_str()) as i64,
+        );
         if predicate(self.get_last_push_str()) {
             if self.fits_on_current_line(1 + content.len()) {
                 self.push_space();
@@ -169,6 +197,12 @@ impl DenseLuaGenerator {
     where
         F: Fn(&str) -> bool,
     {
+        #[cfg(darklua_verif)]
+        crate::verif_hooks::trace(
+            "push_char_and_break_if",
+            content.encode_utf8(&mut [0; 4]),
+            predicate(self.get_last_push_str()) as i64,
+        );
         if predicate(self.get_last_push_str()) {
             if self.fits_on_current_line(2) {
                 self.push_space();
